@@ -77,7 +77,7 @@ func (x *expander) expr(e *Expr) *Expr {
 		n.Pat = x.newPat(e.Pat)
 		n.B = x.expr(e.B)
 		n.C = x.expr(e.C)
-	case "get":
+	case "get", "incv":
 		n.Keys = x.exprs(e.Keys)
 	default:
 		n.A, n.B, n.C = x.expr(e.A), x.expr(e.B), x.expr(e.C)
